@@ -226,9 +226,10 @@ pub fn reference(c: usize) -> String {
 }
 
 /// Execute histories (one JSON object per line: {threads, steps:[{th, call}]}) with a forced hand-off order.
-pub fn run_histories(lines: &[Value], out: &mut Vec<Value>) {
+pub fn run_histories(lines: &[Value], out: &mut Vec<Value>, run_base: usize) {
     let sh = Arc::new(shared_params());
-    for (run, h) in lines.iter().enumerate() {
+    for (run0, h) in lines.iter().enumerate() {
+        let run = run0 + run_base;
         let k = h["threads"].as_u64().unwrap() as usize;
         let mut txs = vec![];
         let (rtx, rrx) = mpsc::channel::<(usize, usize, String)>();
